@@ -5,6 +5,7 @@
 package c13
 
 import (
+	"bytes"
 	"encoding/xml"
 	"flag"
 	"fmt"
@@ -13,6 +14,9 @@ import (
 	"path/filepath"
 	"strings"
 	"sync"
+
+	"github.com/Dash-Industry-Forum/livesim2/cmd/livesim2/app"
+	"github.com/Eyevinn/mp4ff/mp4"
 
 	"verifharness/assetgen"
 	"verifharness/drive/tl"
@@ -70,37 +74,147 @@ type xMPD struct {
 	} `xml:"Period"`
 }
 
-// inbandOfVideo returns [scheme, value] of every InbandEventStream of the AdaptationSets holding representation repID.
-func inbandOfVideo(body []byte, repID string) ([][]string, error) {
+const scteBin = "urn:scte:scte35:2013:bin"
+
+// mpdFacts returns one record per AdaptationSet of every Period (period index, kind, number of SCTE-35 InbandEventStream
+// elements at AdaptationSet or Representation level) and [scheme, value] of every InbandEventStream of the video AdaptationSets.
+func mpdFacts(body []byte) ([]any, [][]string, error) {
 	var m xMPD
 	if err := xml.Unmarshal(body, &m); err != nil {
-		return nil, err
+		return nil, nil, err
 	}
-	out := [][]string{}
-	for _, p := range m.Periods {
-		for _, as := range p.AS {
-			has := false
-			for _, r := range as.Reps {
-				if r.ID == repID {
-					has = true
+	as := []any{}
+	inb := [][]string{}
+	for pi, p := range m.Periods {
+		for _, a := range p.AS {
+			kind := a.ContentType
+			mime := a.Mime
+			if mime == "" && len(a.Reps) > 0 {
+				mime = a.Reps[0].Mime
+			}
+			if kind == "" {
+				kind, _, _ = strings.Cut(mime, "/")
+				if kind == "application" {
+					kind = "text"
 				}
 			}
-			if !has {
-				continue
+			all := append([]xEvt{}, a.Inband...)
+			for _, r := range a.Reps {
+				all = append(all, r.Inband...)
 			}
-			for _, e := range as.Inband {
-				out = append(out, []string{e.Scheme, e.Value})
-			}
-			for _, r := range as.Reps {
-				if r.ID == repID {
-					for _, e := range r.Inband {
-						out = append(out, []string{e.Scheme, e.Value})
-					}
+			n := 0
+			for _, e := range all {
+				if e.Scheme == scteBin {
+					n++
 				}
+				if kind == "video" {
+					inb = append(inb, []string{e.Scheme, e.Value})
+				}
+			}
+			as = append(as, tr.E{"p": pi, "kind": kind, "nscte": n, "ninband": len(all)})
+		}
+	}
+	return as, inb, nil
+}
+
+// countEmsg counts the emsg boxes of a served segment: inside fragments and at top level (no sample decoding needed).
+func countEmsg(body []byte) (nfrag, ntop int, err error) {
+	f, err := mp4.DecodeFile(bytes.NewReader(body))
+	if err != nil {
+		return 0, 0, err
+	}
+	for _, c := range f.Children {
+		if c.Type() == "emsg" {
+			ntop++
+		}
+	}
+	for _, sg := range f.Segments {
+		for _, fr := range sg.Fragments {
+			nfrag += len(fr.Emsgs)
+		}
+	}
+	if len(f.Segments) == 0 {
+		return nfrag, ntop, fmt.Errorf("no media segment in body")
+	}
+	return nfrag, ntop, nil
+}
+
+// option is another documented URL option combined with scte35_<N>.
+type option struct {
+	name    string
+	parts   []string // URL parts
+	query   string   // Annex I: query the client has to repeat on MPD and video segment requests
+	mode    string   // "" or an addressing mode
+	snr     int      // -1: not given
+	chunked bool     // chunked low-latency delivery: segments shorter than 1.5 s are not eligible (ato_1)
+	periods bool     // multi-period: only assets with one segment duration that divides 60 s
+	subs    []string // generated subtitle representations to request as well
+}
+
+func options(drmName string) []option {
+	o := func(name string, parts ...string) option { return option{name: name, parts: parts, snr: -1} }
+	l := []option{
+		{name: "annexI", parts: []string{"annexI_a=1,b=x"}, query: "a=1&b=x", snr: -1},
+		{name: "periods", parts: []string{"periods_60"}, periods: true, snr: -1},
+		{name: "periods+continuous", parts: []string{"periods_60", "continuous_1"}, periods: true, snr: -1},
+		o("patch", "patch_60"),
+		{name: "timesubsstpp", parts: []string{"timesubsstpp_en,sv", "timesubsdur_900", "timesubsreg_1"}, subs: []string{"timestpp-en", "timestpp-sv"}, snr: -1},
+		{name: "timesubswvtt", parts: []string{"timesubswvtt_en"}, subs: []string{"timewvtt-en"}, snr: -1},
+		o("eccp_cenc", "eccp_cenc"), o("eccp_cbcs", "eccp_cbcs"),
+		{name: "segtimeline", mode: "time", snr: -1}, {name: "segtimelinenr", mode: "tlnr", snr: -1},
+		o("ato", "ato_1"),
+		{name: "ato+chunkdur", parts: []string{"ato_1", "chunkdur_0.5"}, chunked: true, snr: -1},
+		o("tsbd", "tsbd_30"),
+		{name: "snr", snr: 5},
+		o("mup", "mup_2"), o("spd", "spd_4"), o("utc", "utc_direct-head"), o("ltgt", "ltgt_2500"), o("sidx", "sidx_1"),
+	}
+	if drmName != "" {
+		l = append(l, o("drm", "drm_"+drmName))
+	}
+	return l
+}
+
+// combine merges two options (thorough: pairwise); ok = false for pairs that cannot be expressed together.
+func combine(a, b option) (option, bool) {
+	if a.mode != "" && b.mode != "" {
+		return a, false
+	}
+	c := option{name: a.name + " & " + b.name, parts: append(append([]string{}, a.parts...), b.parts...), query: a.query + b.query,
+		mode: a.mode + b.mode, snr: a.snr, chunked: a.chunked || b.chunked, periods: a.periods || b.periods, subs: append(append([]string{}, a.subs...), b.subs...)}
+	if b.snr >= 0 {
+		c.snr = b.snr
+	}
+	seen := map[string]bool{}
+	for _, p := range c.parts {
+		k, _, _ := strings.Cut(p, "_")
+		if seen[k] {
+			return c, false
+		}
+		seen[k] = true
+	}
+	return c, true
+}
+
+func eligible(o option, a *tl.Asset) bool {
+	rt := a.Video
+	if o.periods {
+		for _, d := range rt.Dur {
+			if d != rt.Dur[0] {
+				return false
+			}
+		}
+		if (60*rt.TS)%rt.Dur[0] != 0 || rt.Vod0 != 0 {
+			return false
+		}
+	}
+	if o.chunked {
+		for _, d := range rt.Dur {
+			if 2*d < 3*rt.TS {
+				return false
 			}
 		}
 	}
-	return out, nil
+	return true
 }
 
 // secPair is the exact decomposition [v div ts, v mod ts]; [-1, -1] if the seconds do not fit 31 bits.
@@ -128,6 +242,7 @@ type scen struct {
 	durS   int64
 	others bool // also request audio / text segments of the run
 	reject bool // also request scte35_<other>
+	opt    *option // nil: scte35_<N> with start_ / addressing mode only
 	sd     int64
 }
 
@@ -167,6 +282,12 @@ func Main(args []string) error {
 		return err
 	}
 	assets := append(append([]*tl.Asset{}, env.Assets...), own...)
+	// own server over the same VoD root, with the repository's test DRM configuration (drm_<package>)
+	drmName := "EZDRM-1-key-cbcs-test"
+	S, err := srv.New(vod, func(c *app.ServerConfig) { c.DrmCfgFile = filepath.Join(srv.RepoRoot(), "pkg", "drm", "testdata", "drm_config_test.json") })
+	if err != nil {
+		return err
+	}
 	rng := rand.New(rand.NewSource(*seed))
 
 	asts := []int64{0, 1000, 1_699_999_020, 1_700_000_017} // % 60 = 0, 40, 0, 37
@@ -214,9 +335,57 @@ func Main(args []string) error {
 			}
 		}
 	}
+	// scte35_<N> combined with every other documented option: singly (quick: one asset each, thorough: three), pairwise (thorough)
+	opts := options(drmName)
+	var combos []option
+	for _, o := range opts {
+		combos = append(combos, o)
+	}
+	reps := 1
+	if *thorough {
+		reps = 3
+		for i := range opts {
+			for j := i + 1; j < len(opts); j++ {
+				if c, ok := combine(opts[i], opts[j]); ok {
+					combos = append(combos, c)
+				}
+			}
+		}
+	}
+	nopt := 0
+	if *only == "" {
+		for oi := range combos {
+			o := &combos[oi]
+			var el []*tl.Asset
+			for _, a := range assets {
+				if eligible(*o, a) {
+					el = append(el, a)
+				}
+			}
+			if len(el) == 0 {
+				continue
+			}
+			n := reps
+			if oi >= len(opts) {
+				n = 1
+			}
+			for r := 0; r < n; r++ {
+				k := oi*5 + r*7 + sd
+				a := el[k%len(el)]
+				pm := k%3 + 1
+				ast := asts[(k/3)%4]
+				ep := []string{"start", "y2025"}[(k/2)%2]
+				rr := rand.New(rand.NewSource(*seed*104729 + int64(oi*10+r)))
+				scens = append(scens, scen{a: a, pm: pm, ast: ast, mode: "number", epoch: ep, t0: t0of(ep, ast, 300, rr), durS: 300, opt: o, sd: rr.Int63()})
+				nopt++
+			}
+		}
+	}
 	_ = rng
 
 	var mu sync.Mutex
+	nskip := 0
+	optSeen := map[string]bool{}
 	nseg, nemsg, noth, nrej, nmpd, nwrap, nothSkipped := 0, 0, 0, 0, 0, 0, 0
 	var streamS int64
 	distinct := map[string]bool{}
@@ -225,11 +394,27 @@ func Main(args []string) error {
 	runScen := func(idx int, emit func(tr.E)) {
 		sc := scens[idx]
 		a, rt := sc.a, sc.a.Video
-		c := tl.Cfg{Mode: sc.mode, SNR: -1, AST: sc.ast, TSBD: -1, Extra: []string{fmt.Sprintf("scte35_%d", sc.pm)}}
-		c0 := tl.Cfg{Mode: sc.mode, SNR: -1, AST: sc.ast, TSBD: -1}
-		cNum := tl.Cfg{Mode: "number", SNR: -1, AST: sc.ast, TSBD: -1, Extra: c.Extra}
-		emit(tr.E{"ev": "hdr", "sc": idx, "asset": a.Name, "rep": rt.ID, "TS": rt.TS, "pm": sc.pm, "ast": sc.ast, "astmod": sc.ast % 60,
-			"mode": sc.mode, "epoch": sc.epoch, "cfg": strings.Join(c.Parts(), "/"), "N": rt.N, "dur": rt.Dur, "vod0": rt.Vod0, "run_s": sc.durS})
+		scte := fmt.Sprintf("scte35_%d", sc.pm)
+		extra, extra0, mode, snr, query, optName, chunked := []string{scte}, []string{}, sc.mode, -1, "", "", false
+		var subs []string
+		if o := sc.opt; o != nil {
+			extra0 = o.parts
+			if idx%2 == 0 { // either order of the URL parts
+				extra = append([]string{scte}, o.parts...)
+			} else {
+				extra = append(append([]string{}, o.parts...), scte)
+			}
+			if o.mode != "" {
+				mode = o.mode
+			}
+			snr, optName, chunked, subs = o.snr, o.name, o.chunked, o.subs
+			if o.query != "" {
+				query = "&" + o.query
+			}
+		}
+		c := tl.Cfg{Mode: mode, SNR: snr, AST: sc.ast, TSBD: -1, Extra: extra}
+		c0 := tl.Cfg{Mode: mode, SNR: snr, AST: sc.ast, TSBD: -1, Extra: extra0}
+		cNum := tl.Cfg{Mode: "number", SNR: snr, AST: sc.ast, TSBD: -1, Extra: extra}
 		// first segment: loop boundary at or before t0
 		k0 := sc.t0 * rt.TS / rt.L
 		if k0 < 0 {
@@ -239,25 +424,40 @@ func Main(args []string) error {
 		startTicks := tl.StartTicks(rt, n0)
 		// MPD at the instant the first segment of the run is available
 		now0 := sc.ast*1000 + tl.AvailRelMS(rt, n0, 0) + 1
-		mu0 := c.Prefix(a.Name) + "/" + a.MPD + "?nowMS=" + fmt.Sprint(now0)
-		r := env.S.Get(mu0)
-		inb := [][]string{}
-		if r.Status == 200 {
-			if v, err := inbandOfVideo(r.Body, rt.ID); err == nil {
-				inb = v
+		if sc.opt != nil {
+			// a combination the server refuses even without scte35_<N> is not C13's business: counted, not judged
+			if r := S.Get(c0.Prefix(a.Name) + "/" + a.MPD + "?nowMS=" + fmt.Sprint(now0) + query); r.Status != 200 {
+				mu.Lock()
+				nskip++
+				mu.Unlock()
+				return
 			}
 		}
-		emit(tr.E{"ev": "mpd", "st": r.Status, "inband": inb, "url": mu0})
+		emit(tr.E{"ev": "hdr", "sc": idx, "asset": a.Name, "rep": rt.ID, "TS": rt.TS, "pm": sc.pm, "ast": sc.ast, "astmod": sc.ast % 60,
+			"mode": mode, "epoch": sc.epoch, "cfg": strings.Join(c.Parts(), "/"), "N": rt.N, "dur": rt.Dur, "vod0": rt.Vod0, "run_s": sc.durS,
+			"opts": optName, "chunked": chunked})
+		getMPD := func(now int64) {
+			u := c.Prefix(a.Name) + "/" + a.MPD + "?nowMS=" + fmt.Sprint(now) + query
+			r := S.Get(u)
+			as, inb := []any{}, [][]string{}
+			if r.Status == 200 {
+				if x, y, err := mpdFacts(r.Body); err == nil {
+					as, inb = x, y
+				}
+			}
+			emit(tr.E{"ev": "mpd", "st": r.Status, "as": as, "inband": inb, "url": u})
+		}
+		getMPD(now0)
 		segs, emsgs, oth := 0, 0, 0
 		lastN := n0
 		for n := n0; tl.StartTicks(rt, n)-startTicks < sc.durS*rt.TS; n++ {
 			now := sc.ast*1000 + tl.AvailRelMS(rt, n, 0) + 1
-			url := tl.SegURL(c, a, rt, n) + "?nowMS=" + fmt.Sprint(now)
-			r := env.S.Get(url)
+			url := tl.SegURL(c, a, rt, n) + "?nowMS=" + fmt.Sprint(now) + query
+			r := S.Get(url)
 			e := tr.E{"ev": "seg", "n": fmt.Sprint(n), "st": r.Status, "st0": -1, "perr": "", "run": n > n0, "s": []int64{-1, 0}, "e": []int64{-1, 0},
 				"ntop": 0, "emsgs": []any{}, "url": url}
 			if r.Status != 200 {
-				e["st0"] = env.S.Get(tl.SegURL(c0, a, rt, n) + "?nowMS=" + fmt.Sprint(now)).Status
+				e["st0"] = S.Get(tl.SegURL(c0, a, rt, n) + "?nowMS=" + fmt.Sprint(now) + query).Status
 			} else if m, err := project.ParseMedia(r.Body, rt.Trex); err != nil {
 				e["perr"] = err.Error()
 			} else {
@@ -294,47 +494,40 @@ func Main(args []string) error {
 			emit(e)
 			segs++
 			lastN = n
+			type orep struct{ kind, id, url string }
+			var oreps []orep
 			if sc.others {
-				var reps []*project.RepTruth
 				if a.Audio != nil {
-					reps = append(reps, a.Audio)
+					oreps = append(oreps, orep{"audio", a.Audio.ID, tl.SegURL(cNum, a, a.Audio, n)})
 				}
 				if a.Text != nil {
-					reps = append(reps, a.Text)
-				}
-				for _, ort := range reps {
-					u := tl.SegURL(cNum, a, ort, n) + "?nowMS=" + fmt.Sprint(now+3000)
-					r := env.S.Get(u)
-					if r.Status != 200 {
-						// not C13's business (e.g. an audio track whose loop length differs from the video's): counted, not judged
-						mu.Lock()
-						nothSkipped++
-						mu.Unlock()
-						continue
-					}
-					oe := tr.E{"ev": "oseg", "kind": ort.Kind, "rep": ort.ID, "n": fmt.Sprint(n), "st": r.Status, "perr": "", "nemsg": 0, "ntop": 0, "url": u}
-					if r.Status == 200 {
-						if m, err := project.ParseMedia(r.Body, ort.Trex); err != nil {
-							oe["perr"] = err.Error()
-						} else {
-							ne := 0
-							for _, f := range m.Frags {
-								ne += len(f.Emsg)
-							}
-							nt := 0
-							for _, bt := range m.BoxTypes {
-								if bt == "emsg" {
-									nt++
-								}
-							}
-							oe["nemsg"], oe["ntop"] = ne, nt
-						}
-					}
-					emit(oe)
-					oth++
+					oreps = append(oreps, orep{"text", a.Text.ID, tl.SegURL(cNum, a, a.Text, n)})
 				}
 			}
+			for _, id := range subs { // generated subtitle representations (timesubsstpp_ / timesubswvtt_)
+				oreps = append(oreps, orep{"text", id, fmt.Sprintf("%s/%s/%d.m4s", cNum.Prefix(a.Name), id, n+cNum.EffSNR())})
+			}
+			for _, o := range oreps {
+				u := o.url + "?nowMS=" + fmt.Sprint(now+3000)
+				r := S.Get(u)
+				if r.Status != 200 {
+					// not C13's business (e.g. an audio track whose loop length differs from the video's): counted, not judged
+					mu.Lock()
+					nothSkipped++
+					mu.Unlock()
+					continue
+				}
+				oe := tr.E{"ev": "oseg", "kind": o.kind, "rep": o.id, "n": fmt.Sprint(n), "st": r.Status, "perr": "", "nemsg": 0, "ntop": 0, "url": u}
+				if ne, nt, err := countEmsg(r.Body); err != nil {
+					oe["perr"] = err.Error()
+				} else {
+					oe["nemsg"], oe["ntop"] = ne, nt
+				}
+				emit(oe)
+				oth++
+			}
 		}
+		getMPD(sc.ast*1000 + tl.AvailRelMS(rt, lastN, 0) + 1)
 		rej := 0
 		if sc.reject {
 			n := n0 + 1
@@ -342,9 +535,9 @@ func Main(args []string) error {
 			for _, val := range []string{"0", "4", "-1", "10", "60", "x", "1.5", "2x"} {
 				cr := tl.Cfg{Mode: sc.mode, SNR: -1, AST: sc.ast, TSBD: -1, Extra: []string{"scte35_" + val}}
 				u := cr.Prefix(a.Name) + "/" + a.MPD + "?nowMS=" + fmt.Sprint(now)
-				emit(tr.E{"ev": "rej", "what": "mpd", "val": val, "st": env.S.Get(u).Status, "url": u})
+				emit(tr.E{"ev": "rej", "what": "mpd", "val": val, "st": S.Get(u).Status, "url": u})
 				u = tl.SegURL(cr, a, rt, n) + "?nowMS=" + fmt.Sprint(now)
-				emit(tr.E{"ev": "rej", "what": "video segment", "val": val, "st": env.S.Get(u).Status, "url": u})
+				emit(tr.E{"ev": "rej", "what": "video segment", "val": val, "st": S.Get(u).Status, "url": u})
 				rej += 2
 			}
 		}
@@ -357,12 +550,15 @@ func Main(args []string) error {
 		nemsg += emsgs
 		noth += oth
 		nrej += rej
-		nmpd++
+		nmpd += 2
+		if optName != "" {
+			optSeen[optName] = true
+		}
 		streamS += sc.durS
 		if wrapped {
 			nwrap++
 		}
-		distinct[fmt.Sprintf("%s|%d|%d|%s|%s", a.Name, sc.pm, sc.ast, sc.mode, sc.epoch)] = true
+		distinct[fmt.Sprintf("%s|%d|%d|%s|%s|%s", a.Name, sc.pm, sc.ast, mode, sc.epoch, optName)] = true
 		if len(samples) < 6 && idx%7 == 0 {
 			samples = append(samples, map[string]any{"asset": a.Name, "dur": rt.Dur, "TS": rt.TS, "vod0": rt.Vod0, "scte35": sc.pm, "start": sc.ast,
 				"mode": sc.mode, "epoch": sc.epoch, "first_segment": fmt.Sprint(n0), "segments": segs, "emsg": emsgs})
@@ -389,7 +585,8 @@ func Main(args []string) error {
 		}
 		events += w.N
 	}
-	tr.PrintStats(map[string]any{"scenarios": len(scens), "events": events, "segments": nseg, "emsgs": nemsg, "other_rep_segments": noth, "other_rep_not_served": nothSkipped,
+	tr.PrintStats(map[string]any{"scenarios": len(scens) - nskip, "option_scenarios": nopt - nskip, "options_covered": len(optSeen), "options_single": len(opts),
+		"combinations_refused_without_scte35": nskip, "events": events, "segments": nseg, "emsgs": nemsg, "other_rep_segments": noth, "other_rep_not_served": nothSkipped,
 		"rejections": nrej, "mpds": nmpd, "stream_hours": float64(streamS) / 3600, "runs_with_pts_wrap": nwrap,
 		"distinct": len(distinct), "samples": samples, "assets": len(assets)})
 	return nil
